@@ -20,6 +20,19 @@ non-rectangular rooms exist only on puzz.link (pzv.jp, the site the module's exa
 counts borders: a white run may cross at most one room border.  That is the single reading enforced ("borders").
 READINGS may be extended to ("borders", "rooms") to also admit the literal "at most two distinct rooms" reading;
 readings() returns one list per listed reading, merged when the solution sets coincide (always for rectangular rooms).
+
+Two enumerators: candidates() + filter walks all 2^(h*w) colourings (boards up to 16 cells); search() colours the cells one
+by one and gives up a branch as soon as two black cells touch, the white cells have two components of which one can no
+longer grow, a white run ending in the new cell crosses two borders, or a numbered room has too many black cells or cannot
+reach its number any more (the cells still to come hold at most half of every horizontal stretch, rounded up) - consequences
+of the rules above only; selftest() compares both on every board up to 16 cells.  readings() uses search() beyond 16 cells.
+
+Shape ("large", h, w, s): the board with room structure s - "single" (one room; two-digit clues from 6x5 on), "b22" / "b23" /
+"b32" / "b33" (blocks of that size, cut at the board edge), "rows" / "cols" (one room per line), all in the rectangle form;
+"stairs" (diagonal bands of two cells per row, not rectangular) in the room form; "example" (the published 6x6 rooms) -
+without clues, and dense instances derived from answers G of the clue-free board (first, last, evenly spaced; for a single
+room of more than 25 cells: of the largest clue that has answers): every room clued with its number of black cells, all
+minus every k-th clue, one clue +1 / -1 (first, last, middle room), the last room only.
 """
 
 import itertools
@@ -31,6 +44,8 @@ READINGS = ("borders",)  # "borders": a white run crosses at most one room borde
 
 _CAND = {}
 _STRUCT = {}
+_FREE = {}
+SMALL = 16  # boards up to this many cells are enumerated by candidates()
 
 
 def candidates(h, w):
@@ -120,16 +135,202 @@ def structures(form, h, w):
     return res
 
 
+class _Enough(Exception):
+    pass
+
+
+def _search_tall(h, w, room, clue, reading, limit):
+    """All is_black bit masks (bit y*w+x) of the h x w board; room[k] = room of cell k, clue[r] = number of room r or -1."""
+    n = h * w
+    full = (1 << n) - 1
+    notl = full & ~sum(1 << (y * w) for y in range(h))
+    notr = full & ~sum(1 << (y * w + w - 1) for y in range(h))
+    opn = []  # cells that still have an unassigned neighbour once cells 0..i are assigned
+    for i in range(n):
+        m = 0
+        for k in range(max(0, i - w + 1), i + 1):
+            if k + w < n:
+                m |= 1 << k
+        if i % w < w - 1:
+            m |= 1 << i
+        opn.append(m)
+    nrooms = len(clue)
+    rmask = [0] * nrooms
+    for k in range(n):
+        rmask[room[k]] |= 1 << k
+    # room_cap[r][i]: no more than so many of the cells of room r after cell i can be black together (no two side by side
+    # in a row): half of every maximal horizontal stretch of such cells, rounded up
+    room_cap = {}
+    for r in range(nrooms):
+        if clue[r] < 0:
+            continue
+        caps = []
+        for i in range(n):
+            total = 0
+            stretch = 0
+            for k in range(i + 1, n + 1):
+                if k < n and room[k] == r and (stretch == 0 or k % w != 0):
+                    stretch += 1
+                else:
+                    total += (stretch + 1) // 2
+                    stretch = 1 if k < n and room[k] == r else 0
+            caps.append(total)
+        room_cap[r] = caps
+
+    def flood(seed, mask):
+        while True:
+            nxt = (seed | ((seed << 1) & notl) | ((seed >> 1) & notr) | (seed << w) | (seed >> w)) & mask
+            if nxt == seed:
+                return seed
+            seed = nxt
+
+    def may_connect(cells, still_open):
+        if cells == 0:
+            return True
+        if flood(cells & -cells, cells) == cells:
+            return True
+        rest = cells
+        while rest:
+            comp = flood(rest & -rest, rest)
+            if not comp & still_open:
+                return False
+            rest &= ~comp
+        return True
+
+    def run_ok(black, i, step, count):
+        """The white run that ends in cell i, walked backwards (`step` cells apart, `count` more cells at most)."""
+        ids = [room[i]]
+        k = i
+        for _ in range(count):
+            k -= step
+            if black >> k & 1:
+                break
+            ids.append(room[k])
+        if reading == "borders":
+            return sum(1 for a, b in zip(ids, ids[1:]) if a != b) < 2
+        return len(set(ids)) < 3
+
+    out = []
+
+    def rec(i, black):
+        if i == n:
+            out.append(black)
+            if limit is not None and len(out) >= limit:
+                raise _Enough()
+            return
+        done = (1 << (i + 1)) - 1
+        r = room[i]
+        for v in (0, 1):
+            if v and ((i >= w and black >> (i - w) & 1) or (i % w and black >> (i - 1) & 1)):
+                continue
+            nb = black | (v << i)
+            c = clue[r]
+            if c >= 0:
+                cnt = bin(nb & rmask[r]).count("1")
+                if cnt > c or cnt + room_cap[r][i] < c:
+                    continue
+            if v:
+                if not may_connect(done & ~nb, opn[i] if i < n - 1 else 0):
+                    continue
+            else:
+                if not run_ok(nb, i, 1, i % w) or not run_ok(nb, i, w, i // w):
+                    continue
+                if i == n - 1 and not may_connect(done & ~nb, 0):
+                    continue
+            rec(i + 1, nb)
+
+    try:
+        rec(0, 0)
+    except _Enough:
+        pass
+    return out
+
+
+def search(h, w, rooms, clues, reading="borders", limit=None):
+    """All is_black tuples (row-major) obeying the rules, by pruned search; rooms = lists of (y, x), clues[r] = n or -1."""
+    room_of = [None] * (h * w)
+    for r, cells in enumerate(rooms):
+        for y, x in cells:
+            room_of[y * w + x] = r
+    # internal board: at least as tall as wide, the clued rooms rather near its first rows; (Y, X) inside is at(Y, X) outside
+    ih, iw = (h, w) if w <= h else (w, h)
+    at = (lambda Y, X: (Y, X)) if w <= h else (lambda Y, X: (X, Y))
+    rows = [sum(1 for X in range(iw) if clues[room_of[at(Y, X)[0] * w + at(Y, X)[1]]] >= 0) for Y in range(ih)]
+    if sum(c * (2 * Y - (ih - 1)) for Y, c in enumerate(rows)) > 0:
+        at = (lambda f: (lambda Y, X: f(ih - 1 - Y, X)))(at)
+    real = [at(Y, X)[0] * w + at(Y, X)[1] for Y in range(ih) for X in range(iw)]
+    pos = [0] * (h * w)
+    for k, r in enumerate(real):
+        pos[r] = k
+    found = _search_tall(ih, iw, [room_of[r] for r in real], list(clues), reading, limit)
+    return [tuple(bool(m >> pos[r] & 1) for r in range(h * w)) for m in found]
+
+
+def large_structure(h, w, s):
+    """(form, rooms as lists of [y, x], rectangles or None) of the named room structure on the h x w board."""
+    if s == "stairs":
+        bands = {}
+        for y in range(h):
+            for x in range(w):
+                bands.setdefault((y + x) // 2, []).append([y, x])
+        return "room", [bands[k] for k in sorted(bands)], None
+    if s == "example":
+        rects = [r[:4] for r in RULE.example()[0]["rectangles"]]
+    else:
+        bh, bw = {"single": (h, w), "rows": (1, w), "cols": (h, 1)}.get(s) or (int(s[1]), int(s[2]))
+        rects = [[y0, x0, min(y0 + bh, h), min(x0 + bw, w)] for y0 in range(0, h, bh) for x0 in range(0, w, bw)]
+    return "rect", [[[y, x] for y in range(y0, y1) for x in range(x0, x1)] for y0, x0, y1, x1 in rects], rects
+
+
+def free(h, w, s):
+    """Answers of the clue-free board with structure s; for a single room of more than 25 cells (hundreds of thousands of
+    answers) those of the largest clue that has any.  Returns (answers, that clue or None)."""
+    if (h, w, s) not in _FREE:
+        form, rooms, rects = large_structure(h, w, s)
+        tr = [[tuple(c) for c in room] for room in rooms]
+        if s == "single" and h * w > 25:
+            n = (h * w + 1) // 2
+            while True:
+                sols = search(h, w, tr, [n])
+                if sols:
+                    break
+                n -= 1
+            _FREE[(h, w, s)] = (sols, n)
+        else:
+            _FREE[(h, w, s)] = (search(h, w, tr, [-1] * len(rooms)), None)
+    return _FREE[(h, w, s)]
+
+
+def pick(seq, k):
+    """k evenly spaced elements of seq, first and last included (all of seq when it has at most k elements)."""
+    if len(seq) <= k:
+        return list(seq)
+    return [seq[(len(seq) - 1) * j // (k - 1)] for j in range(k)]
+
+
 class Heyawake(base.Rule):
     name = "heyawake"
 
     def shapes(self, tier):
         small = [(1, 1), (1, 2), (2, 1), (1, 3), (3, 1), (2, 2), (1, 4), (4, 1), (2, 3), (3, 2)]
+        large = {
+            (5, 5): ["single", "stairs"], (6, 5): ["single", "b23"], (5, 6): ["single", "b32"],
+            (6, 6): ["single", "b22", "example", "stairs"], (2, 10): ["single", "b23"], (10, 2): ["single", "b32"],
+            (1, 12): ["single"], (12, 1): ["single"],
+        }
         if tier == "quick":
-            return [("rect", h, w, 0) for h, w in small] + [("room", h, w, 0) for h, w in small]
+            return [("rect", h, w, 0) for h, w in small] + [("room", h, w, 0) for h, w in small] + [("large", h, w, s) for (h, w), ss in large.items() for s in ss]
+        more = {
+            (5, 5): ["b22", "b23", "b32", "rows"], (6, 5): ["b22", "b32", "stairs", "cols"], (5, 6): ["b22", "b23", "stairs", "rows"],
+            (6, 6): ["b23", "b32", "rows"],
+            (2, 10): ["b22", "stairs", "rows"], (10, 2): ["b22", "stairs", "cols"], (1, 12): ["cols"], (12, 1): ["rows"],
+            (3, 8): ["single", "b22", "b23", "stairs"], (8, 3): ["single", "b22", "b32", "stairs"],
+            (4, 8): ["single", "b22", "b32", "stairs"], (8, 4): ["single", "b22", "b23", "stairs"], (7, 7): ["b22", "stairs"],
+        }
         big = [(1, 5), (5, 1), (2, 4), (4, 2), (3, 3)]
         s = [(f, h, w, 1) for f in ("rect", "room") for h, w in small + big]
-        return s + [("rect", 1, 6, 1), ("rect", 6, 1, 1), ("rect", 3, 4, 0), ("rect", 4, 3, 0)]
+        s += [("rect", 1, 6, 1), ("rect", 6, 1, 1), ("rect", 3, 4, 0), ("rect", 4, 3, 0)]
+        return s + [("large", h, w, x) for d in (large, more) for (h, w), ss in d.items() for x in ss]
 
     def plan(self, shape, cap):
         """(structures, k) of the cap rule."""
@@ -152,6 +353,10 @@ class Heyawake(base.Rule):
         return structs, k_used
 
     def instances(self, shape, cap):
+        if shape[0] == "large":
+            for p in self.large_instances(shape[1], shape[2], shape[3], cap <= 1000):
+                yield p
+            return
         form, h, w, kmin = shape
         structs, kmax = self.plan(shape, cap)
         for st in structs:
@@ -166,6 +371,42 @@ class Heyawake(base.Rule):
                             yield {"form": "rect", "height": h, "width": w, "rectangles": [list(r) + [c] for r, c in zip(st, clues)]}
                         else:
                             yield {"form": "room", "height": h, "width": w, "rooms": st, "clues": clues}
+
+    def large_instances(self, h, w, s, quick):
+        form, rooms, rects = large_structure(h, w, s)
+        nr = len(rooms)
+
+        def prob(clues):
+            if form == "rect":
+                return {"form": "rect", "height": h, "width": w, "rectangles": [list(r) + [c] for r, c in zip(rects, clues)]}
+            return {"form": "room", "height": h, "width": w, "rooms": rooms, "clues": list(clues)}
+
+        sols, only = free(h, w, s)
+        out = []
+        if only is None:
+            out.append([-1] * nr)
+        gs = pick(sols, 2 if quick else 4)
+        for gi, g in enumerate(gs):
+            num = [sum(1 for y, x in room if g[y * w + x]) for room in rooms]
+            var = {"full": list(num)}
+            if nr > 1:
+                var["minus2"] = [c if t % 2 == 0 else -1 for t, c in enumerate(num)]
+                var["minus3"] = [c if t % 3 != 2 else -1 for t, c in enumerate(num)]
+                var["lastonly"] = [c if t == nr - 1 else -1 for t, c in enumerate(num)]
+            for name, t in (("first", 0), ("last", nr - 1), ("mid", nr // 2)):
+                for d in (1, -1):
+                    if num[t] + d >= 0 and not (only is not None and d < 0 and quick):  # a single room of 36 with 11: 4 s
+                        v = list(num)
+                        v[t] += d
+                        var["%s%+d" % (name, d)] = v
+            if quick:
+                names = (["full", "last+1"], ["minus2", "mid-1"])[gi] if nr > 1 else ["full", "first+1", "first-1"]
+            else:
+                names = list(var) if gi == 0 else ["full", "minus2", "last-1", "first+1"]
+            for k in names:
+                if k in var and var[k] not in out:
+                    out.append(var[k])
+        return [prob(c) for c in out]
 
     def call(self, p):
         from cspuz.puzzle import heyawake
@@ -188,6 +429,19 @@ class Heyawake(base.Rule):
 
     def readings(self, p):
         h, w = p["height"], p["width"]
+        if h * w <= SMALL:
+            return self.filtered(p)
+        rooms, clues = self.rooms_of(p)
+        out = []
+        for r in READINGS:
+            sols = search(h, w, rooms, clues, r)
+            if sols not in out:
+                out.append(sols)
+        return out
+
+    def filtered(self, p, kinds=None):
+        kinds = kinds or READINGS
+        h, w = p["height"], p["width"]
         rooms, clues = self.rooms_of(p)
         room_id = {}
         for i, room in enumerate(rooms):
@@ -195,7 +449,7 @@ class Heyawake(base.Rule):
                 assert c not in room_id
                 room_id[c] = i
         assert len(room_id) == h * w
-        res = {r: [] for r in READINGS}
+        res = {r: [] for r in kinds}
         for col, runs in candidates(h, w):
             if any(n >= 0 and sum(1 for y, x in room if col[y * w + x]) != n for room, n in zip(rooms, clues)):
                 continue
@@ -211,7 +465,7 @@ class Heyawake(base.Rule):
             if ok_rooms and "rooms" in res:
                 res["rooms"].append(col)
         out = []
-        for r in READINGS:
+        for r in kinds:
             if res[r] not in out:
                 out.append(res[r])
         return out
@@ -222,6 +476,47 @@ class Heyawake(base.Rule):
             (3, 4, 4, 6, -1), (4, 0, 6, 2, -1), (4, 2, 6, 4, -1), (4, 4, 6, 6, -1),
         ]
         return {"form": "rect", "height": 6, "width": 6, "rectangles": [list(r) for r in rects]}, "cspuz/puzzle/heyawake.py _main() (pzv.jp/p.html?heyawake/6/6/aa66aapv0fu0g2i3k)"
+
+
+def selftest():
+    """search() against the filter of all colourings, for both readings of the run rule, on every board up to 16 cells:
+    every rectangle tiling (boards up to 8 cells) / every 7th (larger boards) and every 5th / 97th room partition (boards up
+    to 9 cells), at most 80 evenly spaced structures per board, without clues and with the dense clue sets of one answer (all rooms, every second room, last room +1)."""
+    r = Heyawake()
+    checked = 0
+    for h, w in [(h, w) for h in range(1, 17) for w in range(1, 17) if h * w <= SMALL]:
+        n = h * w
+        probs = []
+        tilings = rectangle_tilings(h, w)
+        for st in tilings[:: 1 if n <= 8 else 7]:
+            probs.append(("rect", st))
+        if n <= 9:
+            parts = structures("room", h, w)
+            for st in parts[:: 5 if n <= 8 else 97]:
+                probs.append(("room", st))
+        for s in ("single", "b22", "b23", "b32", "stairs", "rows", "cols"):
+            form, rooms, rects = large_structure(h, w, s)
+            probs.append((form, rects if form == "rect" else rooms))
+        for form, st in pick(probs, 80):
+            def prob(clues):
+                if form == "rect":
+                    return {"form": "rect", "height": h, "width": w, "rectangles": [list(x) + [c] for x, c in zip(st, clues)]}
+                return {"form": "room", "height": h, "width": w, "rooms": st, "clues": list(clues)}
+
+            p0 = prob([-1] * len(st))
+            rooms, _ = r.rooms_of(p0)
+            layouts = [[-1] * len(st)]
+            base_sols = r.filtered(p0, ("borders",))[0]
+            for g in pick(base_sols, 2):
+                num = [sum(1 for y, x in room if g[y * w + x]) for room in rooms]
+                layouts += [num, [c if t % 2 == 0 else -1 for t, c in enumerate(num)], num[:-1] + [num[-1] + 1]]
+            for clues in layouts:
+                p = prob(clues)
+                for kind in ("borders", "rooms"):
+                    want = r.filtered(p, (kind,))[0]
+                    assert sorted(search(h, w, rooms, clues, kind)) == sorted(want), (p, kind)
+                    checked += 1
+    return checked
 
 
 RULE = Heyawake()
